@@ -26,7 +26,7 @@ ASSUMPTIONS = [
     "an exception whose traceback has no cubed frame while building the recipe is a harness error (inconclusive), not judged",
 ]
 NSHARDS = {"quick": 16, "thorough": 32}
-PER_SHARD = {"quick": 110, "thorough": 1800}
+PER_SHARD = {"quick": 110, "thorough": 700}
 ALLOWED = {"ValueError", "TypeError", "NotImplementedError", "IndexError"}
 
 
@@ -100,8 +100,8 @@ def finalize(tier, merged):
     return {
         "rule": RULE,
         "floors": [
-            ("exceptions judged (type+phase)", c.get("exceptions_judged", 0), 150 if tier == "quick" else 3000),
-            ("runs completed without mid-run failure", c.get("completed", 0), 1500 if tier == "quick" else 30000),
+            ("exceptions judged (type+phase)", c.get("exceptions_judged", 0), 150 if tier == "quick" else 2000),
+            ("runs completed without mid-run failure", c.get("completed", 0), 1500 if tier == "quick" else 20000),
         ],
         "assumptions": ASSUMPTIONS,
     }
